@@ -378,6 +378,8 @@ pub enum WOp {
     /// io::Write::write_vectored with two slices of these sizes (any prefix of the concatenation of at least the first
     /// non-empty slice's share of the room is a correct answer)
     WriterWriteV(usize, usize),
+    /// io::Write::write_all through Writer: Ok iff everything fits; otherwise WriteZero after min(available, requested) bytes went through
+    WriterWriteAll(usize),
     /// root must be a Limit
     SetLimit(usize),
     /// the raw BufMut protocol in contract: chunk_mut(), fill min(k, chunk) bytes through the safe
@@ -469,6 +471,7 @@ fn apply(t: &mut Sink, m: &mut SM, op: &WOp, seq_no: usize, stats: &mut Stats) -
         WOp::Buf(_, k) => ("put(Buf)".into(), payload(*k, 0x41 + seq_no as u8 * 16)),
         WOp::WriterWrite(k) => ("Writer::write".into(), payload(*k, 0x61 + seq_no as u8 * 16)),
         WOp::WriterWriteV(a, b) => ("Writer::write_vectored".into(), payload(*a + *b, 0x61 + seq_no as u8 * 16)),
+        WOp::WriterWriteAll(k) => ("Writer::write_all".into(), payload(*k, 0x61 + seq_no as u8 * 16)),
         WOp::ChunkWrite(k) => ("chunk_mut+advance_mut".into(), payload((*k).max(1), 0x81 + seq_no as u8 * 16)),
         WOp::UninitMisuse(_) => ("UninitSlice misuse".into(), vec![]),
         WOp::SetLimit(l) => {
@@ -661,6 +664,25 @@ fn apply(t: &mut Sink, m: &mut SM, op: &WOp, seq_no: usize, stats: &mut Stats) -
                 }
                 Err(_) => return Err(f12("writer-panic", format!("Writer::write({} bytes) with room for {} panicked", bytes.len(), rem))),
             }
+        }
+        WOp::WriterWriteAll(_) => {
+            let want = bytes.len().min(rem);
+            let res = catch_unwind(AssertUnwindSafe(|| {
+                let mut w: Writer<&mut Sink> = (&mut *t).writer();
+                std::io::Write::write_all(&mut w, &bytes).map_err(|e| e.kind())
+            }));
+            return match res {
+                Ok(r) => {
+                    let ok_expected = bytes.len() <= rem;
+                    if r.is_ok() != ok_expected || (!ok_expected && r != Err(std::io::ErrorKind::WriteZero)) {
+                        return Err(f12("writer-write_all-result", format!("Writer::write_all({} bytes) with room for {} returned {:?}", bytes.len(), rem, r)));
+                    }
+                    // what went through is checked by the observation that follows (contents, remaining_mut, structure)
+                    m.write(&bytes[..want]);
+                    Ok(true)
+                }
+                Err(_) => Err(f12("writer-write_all-panic", format!("Writer::write_all({} bytes) with room for {} panicked", bytes.len(), rem))),
+            };
         }
         WOp::WriterWriteV(a, _b) => {
             let (x, y) = bytes.split_at(*a);
@@ -889,6 +911,12 @@ fn sized_ops(rem: usize, first: usize, chunk: usize, with_writer: bool, lim: Opt
         }
     }
     if with_writer {
+        for k in [1usize, cap(rem), cap(rem) + 1, cap(rem) + 2] {
+            let op = WOp::WriterWriteAll(k);
+            if !v.contains(&op) {
+                v.push(op);
+            }
+        }
         for (a, b) in [(1usize, 2usize), (0, 3), (cap(rem), 1), (cap(rem).saturating_sub(1), 2), (cap(first), 2), (2, 0)] {
             let op = WOp::WriterWriteV(a, b);
             if !v.contains(&op) {
@@ -1007,6 +1035,16 @@ pub fn targets(rich: bool) -> Vec<SSpec> {
             out.push(b);
         }
     }
+    // a Limit whose limit exceeds the room of its fixed inner buffer, as the first half of a chain (the chain has to move on
+    // to its second half when the inner buffer is full, whatever the limit says)
+    for c1 in [0usize, 1, 2] {
+        for extra in [1usize, 3, usize::MAX / 2] {
+            for second in [SSpec::Slice(8), SSpec::Vec(0, 3)] {
+                out.push(SSpec::Chain(Box::new(SSpec::Limit(Box::new(SSpec::Slice(c1)), c1.saturating_add(extra))), Box::new(second.clone())));
+                out.push(SSpec::Chain(Box::new(SSpec::Limit(Box::new(SSpec::Uninit(c1)), c1.saturating_add(extra))), Box::new(second.clone())));
+            }
+        }
+    }
     // Limit over growable buffers with one spare byte (a write of two bytes crosses into a second chunk of the inner buffer)
     for l in [2usize, 5] {
         out.push(SSpec::Limit(Box::new(SSpec::Vec(0, 1)), l));
@@ -1020,6 +1058,96 @@ pub fn targets(rich: bool) -> Vec<SSpec> {
     out.push(SSpec::Chain(Box::new(SSpec::Limit(Box::new(SSpec::Vec(0, 0)), 5)), Box::new(SSpec::Slice(8))));
     out.push(SSpec::Chain(Box::new(SSpec::Limit(Box::new(SSpec::BytesMut(2, 2, 1)), 3)), Box::new(SSpec::Uninit(9))));
     out
+}
+
+/// Adapters held *by value* with concrete inner types: provided methods that `&mut T` / `Box<T>` do not forward
+/// (has_remaining_mut, ...) are only reached this way. Each case: a few writes, then contents, remaining_mut and a non-empty
+/// chunk_mut while room remains.
+fn by_value_cases(rep: &mut Report) -> u64 {
+    let mut n = 0u64;
+    let mut check = |name: &str, f: &mut dyn FnMut() -> Result<(), String>| {
+        n += 1;
+        oracle::sys::set_crash_note(&format!("sink by-value case {}", name));
+        let r = oracle::subject(|| catch_unwind(AssertUnwindSafe(|| f())));
+        let msg = match r {
+            Ok(Ok(())) => return,
+            Ok(Err(m)) => m,
+            Err(_) => "panicked".to_string(),
+        };
+        rep.violate("C11", &format!("by-value:{}", name), &format!("{}: {}", name, msg), "");
+        rep.violate("C12", &format!("by-value:{}", name), &format!("{}: {}", name, msg), "");
+    };
+    fn step<T: BufMut>(t: &mut T, want_rem: usize, what: &str) -> Result<(), String> {
+        if t.remaining_mut() != want_rem {
+            return Err(format!("{}: remaining_mut() = {}, want {}", what, t.remaining_mut(), want_rem));
+        }
+        if t.has_remaining_mut() != (want_rem > 0) {
+            return Err(format!("{}: has_remaining_mut() = {} with remaining_mut() = {}", what, t.has_remaining_mut(), want_rem));
+        }
+        if want_rem > 0 && t.chunk_mut().len() == 0 {
+            return Err(format!("{}: chunk_mut() is empty although remaining_mut() = {}", what, want_rem));
+        }
+        Ok(())
+    }
+    for limit in [2usize, 3, 9, usize::MAX] {
+        check("Chain<Limit<&mut [u8]>, &mut [u8]> with a limit beyond the first buffer", &mut || {
+            let (mut a, mut b) = ([0xEEu8; 1], [0xEEu8; 4]);
+            {
+                let lim_room = limit.min(1);
+                let mut c = (&mut a[..]).limit(limit).chain_mut(&mut b[..]);
+                step(&mut c, lim_room + 4, "fresh")?;
+                c.put_u8(0x11);
+                step(&mut c, 4, "after the first half is full")?;
+                c.put_slice(&[0x12, 0x13]);
+                step(&mut c, 2, "after crossing into the second half")?;
+                c.put_bytes(0x14, 2);
+                step(&mut c, 0, "full")?;
+            }
+            if a != [0x11] || b != [0x12, 0x13, 0x14, 0x14] {
+                return Err(format!("buffers hold {:02x?} / {:02x?}", a, b));
+            }
+            Ok(())
+        });
+        check("Limit<Chain<&mut [u8], &mut [u8]>>", &mut || {
+            if limit < 3 {
+                return Ok(()); // the three bytes written below need a limit of at least 3
+            }
+            let (mut a, mut b) = ([0xEEu8; 1], [0xEEu8; 4]);
+            let room = limit.min(5);
+            {
+                let mut l = (&mut a[..]).chain_mut(&mut b[..]).limit(limit);
+                step(&mut l, room, "fresh")?;
+                l.put_u8(0x21);
+                step(&mut l, room - 1, "after one byte")?;
+                l.put_u16(0x2223);
+                step(&mut l, room - 3, "after crossing")?;
+                if bytes::buf::Limit::limit(&l) != limit - 3 {
+                    return Err(format!("limit() = {}, want {}", bytes::buf::Limit::limit(&l), limit - 3));
+                }
+            }
+            if a != [0x21] || b[..2] != [0x22, 0x23] || b[2..] != [0xEE, 0xEE] {
+                return Err(format!("buffers hold {:02x?} / {:02x?}", a, b));
+            }
+            Ok(())
+        });
+    }
+    check("Chain<Chain<&mut [u8], Limit<&mut [u8]>>, Vec<u8>>", &mut || {
+        let (mut a, mut b) = ([0xEEu8; 2], [0xEEu8; 4]);
+        let mut v: Vec<u8> = Vec::new();
+        {
+            let mut c = (&mut a[..]).chain_mut((&mut b[..]).limit(1)).chain_mut(&mut v);
+            c.put_u32(0x31323334);
+            c.put_u8(0x35);
+            if !c.has_remaining_mut() || c.chunk_mut().len() == 0 {
+                return Err("no room reported although the last part is a Vec".into());
+            }
+        }
+        if a != [0x31, 0x32] || b != [0x33, 0xEE, 0xEE, 0xEE] || v != [0x34, 0x35] {
+            return Err(format!("buffers hold {:02x?} / {:02x?} / {:02x?}", a, b, v));
+        }
+        Ok(())
+    });
+    n
 }
 
 pub fn run(tier: &str, parity_odd: bool, shard: usize, nshards: usize, prop: &str, rep: &mut Report) {
@@ -1080,7 +1208,7 @@ pub fn run(tier: &str, parity_odd: bool, shard: usize, nshards: usize, prop: &st
                                 // C12 (write side): the Writer and Limit operations, plain writes for positioning, and put_bytes where it has to
                                 // cross a chunk boundary (an adapter that keeps its own count must see every byte that went through)
                                 let crossing = matches!(op, WOp::Bytes(_, k) if k <= rem && k > chunk && k <= 24);
-                                if prop == "C12" && !(matches!(op, WOp::WriterWrite(_) | WOp::WriterWriteV(..) | WOp::SetLimit(_) | WOp::Slice(_)) || crossing) {
+                                if prop == "C12" && !(matches!(op, WOp::WriterWrite(_) | WOp::WriterWriteV(..) | WOp::WriterWriteAll(_) | WOp::SetLimit(_) | WOp::Slice(_)) || crossing) {
                                     continue;
                                 }
                                 if after_typed && !matches!(op, WOp::Slice(_)) {
@@ -1102,6 +1230,14 @@ pub fn run(tier: &str, parity_odd: bool, shard: usize, nshards: usize, prop: &st
                         oracle::report::jstr(if parity_odd { "odd" } else { "even" })
                     );
                     rep.violate(f.property, &f.case, &format!("{} | target {:?} after writes {:?}", f.msg, spec, seq), &replay);
+                    // a wrong state right after an operation through Writer: the adapter did not transfer min(available, requested)
+                    if f.property == "C11" && matches!(seq.last(), Some(WOp::WriterWrite(_) | WOp::WriterWriteV(..) | WOp::WriterWriteAll(_))) {
+                        rep.violate("C12", &f.case, &format!("{} | target {:?} after writes {:?}", f.msg, spec, seq), &replay);
+                    }
+                    // a rejected write that moved an inner buffer: the adapters did not pass on "exactly the bytes that went through" (C12)
+                    if f.property == "C11" && f.case.starts_with("nofit-partial") && (format!("{:?}", spec).contains("Chain(") || format!("{:?}", spec).contains("Limit(")) {
+                        rep.violate("C12", &f.case, &format!("{} | target {:?} after writes {:?}", f.msg, spec, seq), &replay);
+                    }
                     // a write that lands outside the target's writable region is an out-of-bounds write of the crate (C02) as well
                     if f.property != "C02" && (f.case.contains("outside") || f.case.contains("heap") || f.case.contains("guard")) {
                         rep.violate("C02", &f.case, &format!("{} | target {:?} after writes {:?}", f.msg, spec, seq), &replay);
@@ -1112,6 +1248,13 @@ pub fn run(tier: &str, parity_odd: bool, shard: usize, nshards: usize, prop: &st
                 rep.sample(format!("target {:?} writes {:?}", spec, seq));
             }
         }
+    }
+    if shard == 0 {
+        oracle::begin_execution(parity_odd);
+        let nb = by_value_cases(rep);
+        let _ = oracle::end_execution();
+        let _ = oracle::take_violation();
+        rep.extra_num("by_value_adapter_cases", nb);
     }
     rep.states = seqs;
     rep.transitions = stats.steps;
